@@ -583,6 +583,10 @@ class Certificate:
         bool
             True if the certificate is valid, False otherwise.
         """
+        # IEEE 1609.2 §6.4.3 / TS 103 097 §6: version shall be 3. The field is not covered by
+        # the certificate signature, so it has to be checked here.
+        if self.certificate.get("version") != 3:
+            return False
         # §6: verifyKeyIndicator must match certificate type
         cert_type = self.certificate.get("type")
         vki = self.certificate.get("toBeSigned", {}).get("verifyKeyIndicator")
